@@ -95,7 +95,8 @@ def backend_monitors(chk, hit, scenarios):
     """C05 / C01(3) evaluated directly on what the real key generators returned."""
     for sc in scenarios:
         honest = [p for p in sc["parties"] if p["honest"]]
-        tag = "%s n=%d t=%d deviation=%s by party %d victims=%s" % (sc["pkg"], sc["n"], sc["t"], sc["deviation"], sc["deviant"], sc["victims"])
+        tag = "%s n=%d t=%d deviation=%s by party %d victims=%s schedule=%s" % (
+            sc["pkg"], sc["n"], sc["t"], sc["deviation"], sc["deviant"], sc["victims"], sc.get("schedule", "random"))
         if sc["stuck"] or any(p["verdict"] == "running" for p in honest):
             hit("dkg_stuck", sc, "a KeyGen did not return after its context was cancelled: " + tag)
             continue
@@ -123,24 +124,22 @@ def backend_monitors(chk, hit, scenarios):
             hit("dkg_offpoly_accepted", sc, "keys not on one polynomial were accepted: " + tag)
 
 
-def run(pid, tier, seed):
-    chk = vlib.Check(pid, tier, seed)
-    vlib.proof_stage(chk)
-    ok, blog = vlib.go_build("dkg", "dkg")
-    if not ok:
-        chk.violation("go_build.txt", "harness does not build against /repo:\n" + blog[-4000:], no_input=True)
-        return chk.finish()
-    hits = collections.Counter()
+def model_items(scenarios):
+    """Party runs to replay on the Coq model.  mpc/ps keys are vectors (X, Y0, Y1); the deviations of the catalogue touch the
+    first component only and the others stay on their polynomials, so verdict, first secret component, first key exponents
+    and broadcast order of a ps party are those of the model run on the first components."""
+    items = []
+    for sc in scenarios:
+        if sc["stuck"]:
+            continue
+        for p in sc["parties"]:
+            if p["honest"]:
+                items.append((party_to_coq(sc, p), len(p["events"]) * (1 + sc["n"]) + 20 * (p["verdict"] == "ok"), (sc, p)))
+    return items
 
-    def hit(name, sc, what):
-        hits[name] += 1
-        if hits[name] <= 3:
-            chk.monitor_hit("", "%s_%d.json" % (name, hits[name]),
-                            dict(what=what, seed=seed, tier=tier, scenario=sc,
-                                 replay="build/bin/dkg %s -seed %d -tier %s   (scenario id %s)"
-                                        % ("backend" if sc.get("kind") == "bdkg" else "stack", seed, tier, sc.get("id"))), what)
-        else:
-            chk.cov["monitor_hits"] += 1
+
+def make_hit(chk, seed, tier, sub=None):
+    hit = make_hit(chk, seed, tier)
 
     # ---------------------------------------------------------------- backend level
     # C01 is about honest runs (every schedule), C05 about a deviating participant: each check runs its half (plus a few of
@@ -153,13 +152,7 @@ def run(pid, tier, seed):
         return chk.finish()
     bsc = vlib.read_jsonl(bpath)
     backend_monitors(chk, hit, bsc)
-    items = []
-    for sc in bsc:
-        if sc["pkg"] != "bls" or sc["stuck"]:
-            continue
-        for p in sc["parties"]:
-            if p["honest"]:
-                items.append((party_to_coq(sc, p), len(p["events"]) * (1 + sc["n"]) + 20 * (p["verdict"] == "ok"), (sc, p)))
+    items = model_items(bsc)
     mism = evaluate(chk, pid, items)
     if mism is not None:
         chk.cov["mismatches"] = len(mism)
@@ -174,6 +167,7 @@ def run(pid, tier, seed):
     ssc = stack_stage(chk, hit, tier, seed, only)
     # ---------------------------------------------------------------- evidence
     distinct = set(vlib.canon_hash(t) for t, _, (sc, p) in items if len(p["events"]) >= 2)
+    chk.cov["schedules"] = dict(collections.Counter(sc["pkg"] + "/" + sc.get("schedule", "random").split(" ")[0] for sc in bsc))
     chk.cov["evaluations"] = len(items) + len(bsc) + len(ssc)
     chk.cov["distinct_nontrivial"] = len(distinct)
     chk.cov["rule"] = ("backend level: real bls.TBLS (and ps.TPS) key generators, one goroutine per KeyGen, every message handed over by "
@@ -200,9 +194,11 @@ def run(pid, tier, seed):
         "agreement / integrity / at-most-once of broadcast-class messages are hypotheses of the system theorems (record Network), "
         "proved for the RBC layer in Props/C02.v, C03.v; the full-stack runs exercise the composition on the real code",
         "SHA-256 commitments are modelled as an injective function; curve groups as modules over Z/r; pairing bilinear (BLS.v)",
-        "mpc/ps is driven by the same harness with monitors only (its key vectors are not replayed on the Coq model)",
-        "orchestrated signing in loud mode is live only up to known finding C01-a (KNOWN_FINDINGS.txt); the silent-mode stall that followed "
-        "from C14-a was repaired in msg.Box (b40b5e7) and did not reproduce in any run",
+        "mpc/ps keys are vectors; its party runs are replayed on the model through their first components (the deviations of the "
+        "catalogue touch only those), the other components are covered by the monitors (material, exponents of every component)",
+        "liveness of orchestrated signing rests on the synchroniser (disc, C07) and msg.Box (C14); the two stalls this check found or "
+        "inherited (loud: pre-signing query dropped after the peer finished; silent: first-send race) are repaired in /repo "
+        "(2681e65, b40b5e7) and any fault-free signing failure is reported as a violation",
     ])
 
 
@@ -222,29 +218,16 @@ def stack_stage(chk, hit, tier, seed, only):
             hit("stack_split", sc, "honest parties finished key generation with differing public material: " + tag)
         if sc["fault"] == "none":
             if sc["outcome"] != "all-ok":
-                if sc["mode"] == "silent" and sc["undelivered"] == 0 and "err" not in sc["keygen"]:
-                    chk.monitor_hit("silent-late", "silent_late.json", dict(scenario=sc),
-                                    "silent-mode key generation stalled until its deadline (msg.Box first-send race): " + tag)
-                else:
-                    hit("stack_keygen", sc, "all parties honest, every message delivered, yet KeyGen did not complete everywhere: " + tag)
+                hit("stack_keygen", sc, "all parties honest, every message delivered, yet KeyGen did not complete everywhere: " + tag)
                 continue
-            fails = len(sc["sign_fails"])
             if sc["verified"] != sc["sign_ok"]:
                 hit("stack_verify", sc, "a threshold signature of honest signers does not verify under the reported key: " + tag)
-            if fails:
-                # narrow signature of the known finding C01-a: loud mode, honest run, nothing left undelivered, and every
-                # failed session is explained by "Failed synchronizing on pre-signing topic" reports of its slower signers
-                known = (sc["mode"] == "loud" and sc["undelivered"] == 0 and
-                         fails <= sc["teardown"] <= fails * (sc["t"] - 1))
-                if known:
-                    chk.monitor_hit("loud-sign-teardown", "loud_sign_teardown.json", dict(scenario=sc),
-                                    "%d of %d loud-mode signing sessions: a signer got no signature (pre-signing query dropped "
-                                    "after the peer finished): %s" % (fails, sc["sign_runs"], tag))
-                elif sc["mode"] == "silent" and sc["undelivered"] == 0:
-                    chk.monitor_hit("silent-late", "silent_late.json", dict(scenario=sc),
-                                    "silent-mode signing session stalled until its deadline (msg.Box first-send race): " + tag)
-                else:
-                    hit("stack_sign", sc, "a participant of an orchestrated signing session obtained no signature: " + tag)
+            if sc["sign_fails"]:
+                # both former findings (C01-a loud: pre-signing query dropped after the peer finished, repaired in disc 2681e65;
+                # C01-b silent: msg.Box first-send race, repaired b40b5e7) are fixed: every failure is a violation again
+                hit("stack_sign", sc, "%d of %d orchestrated signing sessions: a participant obtained no signature (%d pre-signing "
+                    "synchronisation failures reported, %d messages undelivered): %s"
+                    % (len(sc["sign_fails"]), sc["sign_runs"], sc["teardown"], sc["undelivered"], tag))
         else:
             oks = [k for i, k in enumerate(sc["keygen"]) if i + 1 != sc["byz"] and k == "ok"]
             if oks and sc["materials"] != 1:
